@@ -59,6 +59,8 @@ def ewidth(e):
   k = e[0]
   if k == "rd": return e[1]["w"]
   if k == "c": return e[2]
+  if k == "fv": return None            # free variable (closure int constant): implicit width
+  if k == "tv": return e[2]            # block-local temporary
   if k == "bin": return ewidth(e[2]) if ewidth(e[2]) is not None else ewidth(e[3])
   if k in ("cmp", "red"): return 1
   if k == "inv": return ewidth(e[1])
@@ -71,7 +73,8 @@ def ewidth(e):
 def expr_refs(e, out):
   k = e[0]
   if k == "rd": out.append(e[1])
-  elif k == "c": pass
+  elif k in ("c", "fv"): pass
+  elif k == "tv": out.append({"tmp": e[1]})
   elif k in ("bin", "cmp"): expr_refs(e[2], out); expr_refs(e[3], out)
   elif k in ("inv", "zext", "sext", "trunc"): expr_refs(e[1], out)
   elif k == "red": expr_refs(e[2], out)
@@ -82,12 +85,21 @@ def expr_refs(e, out):
 
 
 def stmt_reads_writes(stmts, reads, writes):
+  r0 = len(reads)
+  _stmt_rw(stmts, reads, writes)
+  reads[r0:] = [r for r in reads[r0:] if "tmp" not in r]       # temporaries are block-local, not signals
+  return reads, writes
+
+
+def _stmt_rw(stmts, reads, writes):
   for st in stmts:
     if st[0] == "=":
       writes.append(st[1]); expr_refs(st[2], reads)
+    elif st[0] == "tmp":
+      expr_refs(st[2], reads)
     else:
       expr_refs(st[1], reads)
-      stmt_reads_writes(st[2], reads, writes); stmt_reads_writes(st[3], reads, writes)
+      _stmt_rw(st[2], reads, writes); _stmt_rw(st[3], reads, writes)
   return reads, writes
 
 
@@ -111,6 +123,7 @@ def expr_text(e):
   k = e[0]
   if k == "rd": return ref_text(e[1])
   if k == "c": return str(e[1]) if e[2] is None else bits_ctor(e[2], e[1])
+  if k in ("fv", "tv"): return e[1]
   if k == "bin": return f"({expr_text(e[2])} {BINOPS[e[1]]} {expr_text(e[3])})"
   if k == "cmp": return f"({expr_text(e[2])} {CMPOPS[e[1]]} {expr_text(e[3])})"
   if k == "inv": return f"(~{expr_text(e[1])})"
@@ -121,13 +134,15 @@ def expr_text(e):
   raise KeyError(k)
 
 
-def ev(e, rd):
+def ev(e, rd, env=None):
   """evaluate on ints; rd(ref)->int.  returns value (already reduced to its width; implicit consts exact)"""
   k = e[0]
   if k == "rd": return rd(e[1])
   if k == "c": return e[1]
+  if k == "fv": return e[2]
+  if k == "tv": return env[e[1]]
   if k == "bin":
-    a, b = ev(e[2], rd), ev(e[3], rd)
+    a, b = ev(e[2], rd, env), ev(e[3], rd, env)
     w = ewidth(e)
     op = e[1]
     if op == "add": r = a + b
@@ -140,22 +155,22 @@ def ev(e, rd):
     else: r = (a >> b) if b < w else 0
     return r & mask(w)
   if k == "cmp":
-    a, b = ev(e[2], rd), ev(e[3], rd)
+    a, b = ev(e[2], rd, env), ev(e[3], rd, env)
     return int({"eq": a == b, "ne": a != b, "lt": a < b, "le": a <= b, "gt": a > b, "ge": a >= b}[e[1]])
-  if k == "inv": return (~ev(e[1], rd)) & mask(ewidth(e))
-  if k == "zext": return ev(e[1], rd)
+  if k == "inv": return (~ev(e[1], rd, env)) & mask(ewidth(e))
+  if k == "zext": return ev(e[1], rd, env)
   if k == "sext":
-    a, w0 = ev(e[1], rd), ewidth(e[1])
+    a, w0 = ev(e[1], rd, env), ewidth(e[1])
     return (a - (1 << w0) if a >> (w0 - 1) else a) & mask(e[2])
-  if k == "trunc": return ev(e[1], rd) & mask(e[2])
+  if k == "trunc": return ev(e[1], rd, env) & mask(e[2])
   if k == "cat":
     r = 0
     for x in e[1]:
-      r = (r << ewidth(x)) | ev(x, rd)
+      r = (r << ewidth(x)) | ev(x, rd, env)
     return r
-  if k == "ite": return ev(e[2], rd) if ev(e[1], rd) else ev(e[3], rd)
+  if k == "ite": return ev(e[2], rd, env) if ev(e[1], rd, env) else ev(e[3], rd, env)
   if k == "red":
-    a, w0 = ev(e[2], rd), ewidth(e[2])
+    a, w0 = ev(e[2], rd, env), ewidth(e[2])
     return int({"and": a == mask(w0), "or": a != 0, "xor": bin(a).count("1") & 1}[e[1]])
   raise KeyError(k)
 
@@ -175,6 +190,8 @@ def emit_stmts(stmts, ind, kind, out, op=None):
   for st in stmts:
     if st[0] == "=":
       out.append(" " * ind + f"{ref_text(st[1])} {op} {expr_text(st[2])}")
+    elif st[0] == "tmp":
+      out.append(" " * ind + f"{st[1]} = {expr_text(st[2])}")
     else:
       out.append(" " * ind + f"if {expr_text(st[1])}:")
       emit_stmts(st[2], ind + 2, kind, out, op)
@@ -207,6 +224,8 @@ def emit(design, connect_order=None, connect_style=None, block_order=None):
         L.append(f"    s.{sg['name']} = {sg['kind']}({type_text(sg['type'])})")
     for iname, ccn in c["children"]:
       L.append(f"    s.{iname} = {ccn}()")
+    for fvn, fvv in sorted(c.get("freevars", {}).items()):
+      L.append(f"    {fvn} = {fvv}")
     order = list(range(len(c["connects"])))
     if connect_order and cn in connect_order: order = connect_order[cn]
     for i in order:
@@ -217,6 +236,10 @@ def emit(design, connect_order=None, connect_style=None, block_order=None):
     if block_order and cn in block_order:
       blks = [blks[i] for i in block_order[cn]]
     for b in blks:
+      if b.get("lambda"):
+        st = b["stmts"][0]
+        L.append(f"    {ref_text(st[1])} //= lambda: {expr_text(st[2])}")
+        continue
       L.append("    @update" if b["kind"] == "comb" else "    @update_ff")
       L.append(f"    def {b['name']}():")
       body = []
@@ -357,15 +380,18 @@ class Ref:
   def set_input(self, path, v):
     self.write_cells(self.cell[path], v)
 
-  def exec_stmts(self, host, stmts, bits, sink):
+  def exec_stmts(self, host, stmts, bits, sink, env=None):
     ch = False
+    env = {} if env is None else env
     rd = lambda r: self.read_cells(self.ref_cells(host, r), bits)
     for st in stmts:
       if st[0] == "=":
-        v = ev(st[2], rd) & mask(st[1]["w"])
+        v = ev(st[2], rd, env) & mask(st[1]["w"])
         ch |= self.write_cells(self.ref_cells(host, st[1]), v, sink)
+      elif st[0] == "tmp":
+        env[st[1]] = ev(st[2], rd, env)
       else:
-        ch |= self.exec_stmts(host, st[2] if ev(st[1], rd) else st[3], bits, sink)
+        ch |= self.exec_stmts(host, st[2] if ev(st[1], rd, env) else st[3], bits, sink, env)
     return ch
 
   def settle(self, cap=300):
@@ -498,6 +524,11 @@ class Gen:
   def const(self, w, implicit_ok=True):
     rng = self.rng
     v = rng.choice([0, 1, mask(w), mask(w) >> 1, 1 << (w - 1), rng.getrandbits(w)])
+    if implicit_ok and rng.random() < self.k.get("p_freevar", 0) and w <= 32 and getattr(self, "cur_cls", None) is not None:
+      fvs = self.cur_cls.setdefault("freevars", {})
+      name = f"K{len(fvs)}"
+      fvs[name] = v
+      return ["fv", name, v]
     if implicit_ok and rng.random() < 0.6:
       return ["c", v, None]
     return ["c", v, w]
@@ -580,6 +611,7 @@ class Gen:
     while f"C{self.ncls}" in d["classes"]: self.ncls += 1
     cname = f"C{self.ncls}"; self.ncls += 1
     cls = {"name": cname, "signals": [], "children": [], "connects": [], "blocks": []}
+    outer_cls = getattr(self, "cur_cls", None)
     # children first (their classes must be emitted before)
     if depth > 0:
       for i in range(rng.randrange(0, k["max_children"] + 1)):
@@ -589,6 +621,7 @@ class Gen:
         else:
           ccn = self.gen_class(rng.randrange(0, depth), False)
         cls["children"].append([f"c{i}", ccn])
+    self.cur_cls = cls
     # signals
     nid = [0]
     def mk(kind, prefix):
@@ -684,9 +717,27 @@ class Gen:
       blocks = [g for g in groups if g]
     for bi, tg in enumerate(blocks):
       stmts = []
+      ntmp = 0
       for (p, srcs) in tg:
-        stmts += self.assign_stmts(p, srcs, "comb")
-      cls["blocks"].append({"name": f"up_{bi}", "kind": "comb", "stmts": stmts})
+        if srcs and rng.random() < k.get("p_tmp", 0):
+          # block-local temporary: t = <explicit expr>; target @= f(t)
+          tw = rng.choice(SMALLW + [p["w"]])
+          tn = f"t{bi}_{ntmp}"; ntmp += 1
+          stmts.append(["tmp", tn, self._explicit(tw, list(srcs), 2)])
+          tv = ["tv", tn, tw]
+          if tw == p["w"]: core = tv
+          elif tw < p["w"]: core = [rng.choice(["zext", "sext"]), tv, p["w"]]
+          else: core = ["trunc", tv, p["w"]]
+          e2 = core if rng.random() < 0.4 else ["bin", rng.choice(["add", "xor", "and", "or", "sub"]), core, self._explicit(p["w"], list(srcs), 1)]
+          stmts.append(["=", p, e2])
+        else:
+          stmts += self.assign_stmts(p, srcs, "comb")
+      blk = {"name": f"up_{bi}", "kind": "comb", "stmts": stmts}
+      if len(stmts) == 1 and stmts[0][0] == "=" and "." not in stmts[0][1]["path"] and not stmts[0][1]["steps"] \
+         and expr_refs(stmts[0][2], []) and rng.random() < k.get("p_lambda", 0):
+        blk["lambda"] = True
+        blk["name"] = "_lambda__s_" + stmts[0][1]["path"].replace("[", "_").replace("]", "_")
+      cls["blocks"].append(blk)
     # ff blocks
     rng.shuffle(ff_targets)
     i = 0
@@ -719,6 +770,7 @@ class Gen:
         else:
           cls["constraints"].append(f"RD({ref_text(rng.choice(whole))}) > U(up_{i})")
     cls["constraints"] = sorted(set(cls["constraints"]))
+    self.cur_cls = outer_cls
     d["classes"][cname] = cls
     d["order"].append(cname)
     self.by_depth.setdefault(depth, []).append(cname)
